@@ -28,7 +28,7 @@ inductive Ty where
   | list (e : Ty) (anns : List Ann)
   | set (e : Ty) (anns : List Ann)
   | map (k v : Ty) (anns : List Ann)
-  deriving Repr, Inhabited
+  deriving DecidableEq, Repr, Inhabited
 
 inductive CV where
   | str (s : List Char)
